@@ -70,8 +70,9 @@ var SecRuleRegex = regexp.MustCompile(`\s*SecRule`)
 var RuleIdFileNameRegex = regexp.MustCompile(`^(\d{6})(?:-chain(\d+))?(?:\.ra)?$`)
 
 // RuleIdTestFileNameRegex matches the rule ID in a test file name (<id>.yaml).
-// The rule ID is captured in group 1, the optional extension in group 2.
-var RuleIdTestFileNameRegex = regexp.MustCompile(`^(\d{6})(?:\.ya?ml)?$`)
+// The rule ID is captured in group 1. The extension is mandatory, other files
+// in the tests directory (e.g., a file that is just named like a rule ID) are not test files.
+var RuleIdTestFileNameRegex = regexp.MustCompile(`^(\d{6})\.ya?ml$`)
 
 // TestIdRegex matches any test_id line in test YAML files (test_id: <ID>).
 // Everything up to the value of the test ID is captured in group 1, test ID in group 2.
